@@ -41,7 +41,13 @@ class RecPipe:
 def make_array(field, n, w, k, rng):
     a = (rng.integers(1, 100, n)).astype(DT[w])
     if field == 'b':
-        a = a.reshape(-1, 3)          # multi-dimensional column: the count is in elements, not rows
+        # multi-dimensional column: the count is in elements, not rows — (N,3), and (N,3,2) / (N,3,2,2) where the length allows (e.g. per-halo tensors)
+        if n and n % 12 == 0 and k % 3 == 2:
+            a = a.reshape(-1, 3, 2, 2)
+        elif n and n % 6 == 0 and k % 3 == 1:
+            a = a.reshape(-1, 3, 2)
+        else:
+            a = a.reshape(-1, 3)
     return a
 
 
@@ -70,7 +76,7 @@ def run(chk):
     def file_for(spec, k):
         key = json.dumps([sorted(spec), k])
         if key not in filecache:
-            arrs = {f: make_array(f, n, w, k, rng) for (f, n, w) in spec}
+            arrs = {f: make_array(f, n, w, k + len(filecache), rng) for (f, n, w) in spec}
             fn = os.path.join(chk.scratch, f'f{len(filecache)}.asdf')
             if len(filecache) % 2:
                 # every second file is blsc-compressed (blocks rewritten with the repository's own compressor)
